@@ -16,7 +16,7 @@ from . import c12
 
 INITIAL = ['*', 'wl_pointer', '! .motion', '!', 'wl_surface.destroyed']
 COMMANDS = ['filter wl_pointer', 'filter ! .motion', 'filter *', 'connection A', 'connection B', 'connection all',
-            'connection zz', 'filter [', 'filter B:', 'list B: wl_surface']
+            'connection zz', 'filter [', 'filter B:', 'list B: wl_surface', 'connection a']
 CMD_REF = {'filter wl_pointer': ('wl_pointer', ['wl_pointer'], []), 'filter ! .motion': ('! .motion', [], ['.motion']),
            'filter *': ('*', ['*'], []), 'filter B:': ('B:', ['B:'], [])}
 T = 9000000000
@@ -36,7 +36,8 @@ def prelude(conn):
     ]
 
 
-MSG_KINDS = {'1': ['motion', 'button', 'commit', 'create', 'destroy', 'orphan', 'appid', 'cbnew', 'cbdel'], '2': ['motion', 'commit', 'orphan']}
+MSG_KINDS = {'1': ['motion', 'button', 'commit', 'create', 'destroy', 'orphan', 'appid', 'cbnew', 'cbdel'], '2': ['motion', 'commit', 'orphan'],
+             '3': ['sync']}       # a third connection: it opens whenever its first message arrives, also after a selection was made
 
 
 def message_for(conn, kind, created):
@@ -59,6 +60,9 @@ def message_for(conn, kind, created):
     if kind == 'cbdel':
         created.remove(21)
         return _u(conn, False, 'wl_display', 1, 'delete_id', [['int', 21]])
+    if kind == 'sync':
+        created.append('s')
+        return _u(conn, True, 'wl_display', 1, 'sync', [['new', 'wl_callback', 100 + len(created)]])
     if kind == 'appid':       # connection A announces the app id "b": `connection B` must still mean the connection named B
         return _u(conn, True, 'zz_q', 78, 'set_app_id', [['str', 'b']])
     if kind == 'orphan':      # a message on an id the log never showed being created (stays unresolved)
@@ -67,14 +71,14 @@ def message_for(conn, kind, created):
 
 
 def enabled_events(hist):
-    created = {'1': set(), '2': set()}
+    created = {'1': set(), '2': set(), '3': set()}
     for e in hist:
         if e[0] == 'm' and e[2] in ('create', 'cbnew'):
             created[e[1]].add(e[2])
         if e[0] == 'm' and e[2] in ('destroy', 'cbdel'):
             created[e[1]].discard({'destroy': 'create', 'cbdel': 'cbnew'}[e[2]])
     evs = []
-    for conn in ('1', '2'):
+    for conn in ('1', '2', '3'):
         for k in MSG_KINDS[conn]:
             if k in ('create', 'cbnew') and k in created[conn]:
                 continue
@@ -91,7 +95,7 @@ def run_hist(init, hist, check_from=0):
     key = None
     try:
         # structured messages in arrival order (prelude of both connections first)
-        created = {'1': [], '2': []}
+        created = {'1': [], '2': [], '3': []}
         msgs = prelude('1') + prelude('2')
         npre = len(msgs)
         for e in hist:
@@ -142,8 +146,8 @@ def run_hist(init, hist, check_from=0):
                     ref.step(CMD_REF[e[1]])
                 elif e[1] == 'connection all':
                     selection = None
-                elif e[1] in ('connection A', 'connection B'):
-                    selection = e[1].split()[-1]
+                elif e[1] in ('connection A', 'connection B', 'connection a'):      # names are matched without regard to case
+                    selection = e[1].split()[-1].upper()
                 if checked and marked != ([selection] if selection else []):
                     V.append(Violation('live.selection_state', case, {'step': n, 'command': e[1], 'expected_selected': selection,
                                                                       'listing_marks': marked}))
